@@ -206,8 +206,14 @@ def parse_report(text, verbose, listing):
         elif verbose:
             m = OK_V.match(line)
             if m:
-                cur.append((m.group(1).split(".")[0].rstrip() + "." + m.group(1).split(".", 1)[1].rstrip() if "." in m.group(1) else m.group(1), m.group(4) is not None,
-                            int(m.group(4)) if m.group(4) else None, int(m.group(5)) if m.group(5) else None))
+                g = m.group(1)
+                if len(g) == 12 and g[8] == ".":      # read actions print the padded 8.3 fields
+                    label = g[:8].rstrip() + "." + g[9:].rstrip()
+                elif "." in g:                         # update actions print the injector's own name and extension
+                    label = g.rsplit(".", 1)[0].rstrip() + "." + g.rsplit(".", 1)[1].rstrip()
+                else:
+                    label = g
+                cur.append((label, m.group(4) is not None, int(m.group(4)) if m.group(4) else None, int(m.group(5)) if m.group(5) else None))
         else:
             m = OK_Q.match(line)
             if m and m.group(2) != "ignored":
